@@ -44,7 +44,7 @@ func moduleHelperWithBody(cc *ssa.CallCommon) *ssa.Function {
 		return nil
 	}
 	g := staticCallee(cc)
-	if g == nil || g.Blocks == nil || !strings.HasPrefix(fnPkgPath(g), Mod) {
+	if g == nil || g.Blocks == nil || !(strings.HasPrefix(fnPkgPath(g), Mod) || strings.HasPrefix(fnPkgPath(g), "gatecheckfx")) {
 		return nil
 	}
 	return g
